@@ -58,6 +58,12 @@ CLAIMED = {
  "C15": ("sibling-agreement analysis between secs2 ToSML and the sml encoder: the strconv conversions (kind, base, format, precision, bit size) used per numeric family and per branch, the literal tokens of booleans, the write sequences of the list renderers on the empty and non-empty paths, and the encoder's default option constants",
          "Decides necessary conditions of byte-identity of the two renderers: same signedness/base for integers in every branch, same 'G'/9/17/bit-size parameters for floats, same boolean tokens, indentation written before every list opener (empty list included) with the same unit and depth rule, and encoder defaults equal to the constants baked into ToSML. Byte equality on all item trees is not decided.",
          "§4 C15"),
+ "C17": ("bit-provenance (layout) evaluation of the SECS-I block header on every path of buildHeader composed with the block accessors; append-sequence and slice-range analysis of block.appendTo / parseBlock (length byte, summed range, checksum byte order); linear-arithmetic bounds obligations over the block/message/line-reader code with inferred contracts; path-exact decision table of assembler.accept against the E4 receive algorithm plus field-update tables of reset/startMessage/appendBlock; path table of the receive handshake",
+         "Decides, bit for bit, the E4 block header layout and its inversion by the accessors; that the length byte is 10+body, the checksum the big-endian low 16 bits of the sum over header+body only, and that parseBlock checks exactly that; that no index/slice/allocation in the block, message and line-reader code can go out of range; the complete accept decision table (device, direction, T4 discard, duplicate drop independent of an open partial, continuation, abort-and-restart) and the exact state updates that keep the T4 base and the duplicate record right; and the NAK-after-silence / ACK-before-delivery handshake. Behaviour against a real E4 peer and real-time T4 are not decided.",
+         "§4 C17"),
+ "C18": ("iteration table of the sendBlock retry loop with the loop-carried retry counter (enum-infeasible paths pruned); path table of receiveBlock's handshake per failure class; value-flow of the generation's single inbound sink to the idle path and every send; who-may-call enumeration of the line I/O methods; field-update analysis of the duplicate record",
+         "Decides structural necessary conditions of exactly-once delivery over a faulty line: at most retryLimit+1 attempts per block with the counter advanced on every failed attempt and reset only after a yielded block was received and delivered, ErrSendFailed on exhaustion; NAK (after silence where framing was lost) or ACK on every receive path and no block returned on failure; one assembler feed per generation shared by idle and contention-yield receives; the line driven only by the line engine; the duplicate record surviving message completion. Exactly-once, ordering and deadlock freedom under fault patterns are runtime behaviour and are not decided.",
+         "§4 C18"),
  "C14": ("bounds/size obligations over the parse fragment decided by linear integer arithmetic on SSA values with inductively inferred contracts and Parser field invariants (data = input[pos:], len = len(input), 0 ≤ pos ≤ len); recursion-cycle depth-parameter analysis; provenance of every ParseError offset and decision table of the line/column scan; who-may-write enumeration of package variables and Parser/Encoder fields",
          "Decides that every index/slice of the scan window, every forward/backward step and every allocation size (make, Builder.Grow) reachable from the Parse entry points is in range / bounded by the unread input for every text, that list nesting is depth-bounded before recursion, that every syntax error's offset is a parser position clamped to len(input) with line/column derived from exactly that prefix, and that parser/encoder instances share no mutable state. Does not decide running time or messages' values.",
          "§4 C14"),
